@@ -81,30 +81,35 @@ def ColForm.table (F : ColForm σ) (tn : Str) (cs : List σ) : Table := { name :
 
 def ColForm.allOK (F : ColForm σ) (ap : Bool) (cs : List σ) : Prop := ∀ s ∈ cs, F.ok ap s
 
-theorem ColForm.body_next (F : ColForm σ) (cs : List σ) (tail : Str) :
-    ∃ k x r, F.text cs ++ '}' :: tail = List.replicate k ' ' ++ x :: r ∧ isWs x = false ∧ x ≠ '\n' ∧ x ≠ '/'
-      ∧ (x = '"' ∨ x = '}') := by
+/-- what may follow the column lines: blanks, then a character that begins neither a line break nor a comment -/
+def EndOK (e : Str) : Prop :=
+  ∃ k x r, e = List.replicate k ' ' ++ x :: r ∧ isWs x = false ∧ x ≠ '\n' ∧ x ≠ '/'
+
+theorem endOK_brace (tail : Str) : EndOK ('}' :: tail) := ⟨0, '}', tail, rfl, by decide, by decide, by decide⟩
+
+theorem ColForm.body_next (F : ColForm σ) (cs : List σ) (e : Str) (he : EndOK e) :
+    ∃ k x r, F.text cs ++ e = List.replicate k ' ' ++ x :: r ∧ isWs x = false ∧ x ≠ '\n' ∧ x ≠ '/' := by
   cases cs with
-  | nil => exact ⟨0, '}', tail, rfl, by decide, by decide, by decide, Or.inr rfl⟩
+  | nil => obtain ⟨k, x, r, h⟩ := he; exact ⟨k, x, r, by simpa [ColForm.text] using h⟩
   | cons s r =>
     obtain ⟨q, hq⟩ := F.quoted s
-    exact ⟨4, '"', q ++ '\n' :: (F.text r ++ '}' :: tail), by simp [ColForm.text, hq, List.replicate],
-      by decide, by decide, by decide, Or.inl rfl⟩
+    exact ⟨4, '"', q ++ '\n' :: (F.text r ++ e), by simp [ColForm.text, hq, List.replicate],
+      by decide, by decide, by decide⟩
 
-theorem ColForm.skipNl_stay_body (F : ColForm σ) (c : Cur) (cs : List σ) (tail : Str)
-    (hc : c.rest = F.text cs ++ '}' :: tail) : skipNl c = .ok () c := by
-  obtain ⟨k, x, r, he, hw, h1, h2, _⟩ := F.body_next cs tail
+theorem ColForm.skipNl_stay_body (F : ColForm σ) (c : Cur) (cs : List σ) (e : Str) (he : EndOK e)
+    (hc : c.rest = F.text cs ++ e) : skipNl c = .ok () c := by
+  obtain ⟨k, x, r, he, hw, h1, h2⟩ := F.body_next cs e he
   have hN : Next c x r := skipWs_rest_spaces c k x r (by rw [hc, he]) hw
   obtain ⟨q1, q2⟩ := quiet_of_next c x r hN h1 h2
   exact skipNl_stay c q1 q2
 
-theorem ColForm.tableElement_col (F : ColForm σ) (props : Bool) (c : Cur) (s : σ) (cs : List σ) (tail : Str)
-    (hc : c.rest = F.text (s :: cs) ++ '}' :: tail) (hp : c.pastEnd = false) (hs : F.ok props s) :
+theorem ColForm.tableElement_col (F : ColForm σ) (props : Bool) (c : Cur) (s : σ) (cs : List σ) (e : Str) (he : EndOK e)
+    (hc : c.rest = F.text (s :: cs) ++ e) (hp : c.pastEnd = false) (hs : F.ok props s) :
     ∃ c', tableElement props c = .ok (TblElem.column (F.bp s)) c'
-      ∧ c'.rest = F.text cs ++ '}' :: tail ∧ c'.pastEnd = false := by
-  have hs0 : skipNl c = .ok () c := F.skipNl_stay_body c (s :: cs) tail hc
-  obtain ⟨c1, hcol, hr1, hp1⟩ := F.parse props c s (F.text cs ++ '}' :: tail) (by rw [hc]; simp [ColForm.text]) hp hs
-  have hs1 : skipNl c1 = .ok () c1 := F.skipNl_stay_body c1 cs tail hr1
+      ∧ c'.rest = F.text cs ++ e ∧ c'.pastEnd = false := by
+  have hs0 : skipNl c = .ok () c := F.skipNl_stay_body c (s :: cs) e he hc
+  obtain ⟨c1, hcol, hr1, hp1⟩ := F.parse props c s (F.text cs ++ e) (by rw [hc]; simp [ColForm.text]) hp hs
+  have hs1 : skipNl c1 = .ok () c1 := F.skipNl_stay_body c1 cs e he hr1
   refine ⟨c1, ?_, hr1, hp1⟩
   unfold tableElement
   simp only [bind, pbind, hs0, alt, hcol, hs1, pure, ppure]
@@ -113,28 +118,38 @@ theorem ColForm.text_cons_length (F : ColForm σ) (s : σ) (cs : List σ) :
     (F.text cs).length + 5 ≤ (F.text (s :: cs)).length := by
   simp [ColForm.text] <;> omega
 
-theorem ColForm.many_body (F : ColForm σ) (props : Bool) (cs : List σ) (tail : Str) (hcs : F.allOK props cs) :
-    ∀ (fuel : Nat) (c : Cur), cs.length < fuel → c.rest = F.text cs ++ '}' :: tail → c.pastEnd = false →
-      ∃ c', many (tableElement props) fuel c = .ok ((cs.map F.bp).map TblElem.column) c'
+/-- what the repetition over the body does once the column lines are read: it reads `els` and stops at the brace -/
+def BodyEnd (props : Bool) (e : Str) (els : List TblElem) (tail : Str) : Prop :=
+  ∀ (fuel : Nat) (c : Cur), 1 < fuel → c.rest = e → c.pastEnd = false →
+    ∃ c', many (tableElement props) fuel c = .ok els c' ∧ c'.rest = '}' :: tail ∧ c'.pastEnd = false
+
+theorem bodyEnd_brace (props : Bool) (tail : Str) : BodyEnd props ('}' :: tail) [] tail := by
+  intro fuel c hf hc hp
+  obtain ⟨f, rfl⟩ : ∃ f, fuel = f + 1 := ⟨fuel - 1, by omega⟩
+  refine ⟨c, ?_, hc, hp⟩
+  rw [many]
+  simp [tableElement_fail_brace props c tail hc]
+
+theorem ColForm.many_body (F : ColForm σ) (props : Bool) (cs : List σ) (e tail : Str) (els : List TblElem)
+    (he : EndOK e) (hE : BodyEnd props e els tail) (hcs : F.allOK props cs) :
+    ∀ (fuel : Nat) (c : Cur), cs.length + 1 < fuel → c.rest = F.text cs ++ e → c.pastEnd = false →
+      ∃ c', many (tableElement props) fuel c = .ok ((cs.map F.bp).map TblElem.column ++ els) c'
         ∧ c'.rest = '}' :: tail ∧ c'.pastEnd = false := by
   induction cs with
   | nil =>
     intro fuel c hf hc hp
-    obtain ⟨f, rfl⟩ : ∃ f, fuel = f + 1 := ⟨fuel - 1, by simp at hf; omega⟩
-    refine ⟨c, ?_, by simpa [ColForm.text] using hc, hp⟩
-    rw [many]
-    simp [tableElement_fail_brace props c tail (by simpa [ColForm.text] using hc)]
+    simpa using hE fuel c (by simpa using hf) (by simpa [ColForm.text] using hc) hp
   | cons s r ih =>
     intro fuel c hf hc hp
     obtain ⟨f, rfl⟩ : ∃ f, fuel = f + 1 := ⟨fuel - 1, by simp at hf; omega⟩
-    obtain ⟨c1, hel, hr1, hp1⟩ := F.tableElement_col props c s r tail hc hp (hcs s (by simp))
+    obtain ⟨c1, hel, hr1, hp1⟩ := F.tableElement_col props c s r e he hc hp (hcs s (by simp))
     obtain ⟨c2, hm, hr2, hp2⟩ := ih (fun q hq => hcs q (by simp [hq])) f c1 (by simp at hf; omega) hr1 hp1
     refine ⟨c2, ?_, hr2, hp2⟩
     have hlen : c1.rest.length ≠ c.rest.length := by
       have := F.text_cons_length s r
       rw [hr1, hc]; simp only [List.length_append]; omega
     rw [many]
-    simp only [hel, hlen, decide_false, Bool.false_and, Bool.false_eq_true, ↓reduceIte, hm, List.map_cons]
+    simp only [hel, hlen, decide_false, Bool.false_and, Bool.false_eq_true, ↓reduceIte, hm, List.map_cons, List.cons_append]
 
 theorem ColForm.text_length (F : ColForm σ) (cs : List σ) : cs.length ≤ (F.text cs).length := by
   induction cs with
@@ -191,30 +206,30 @@ theorem ColForm.tableRule_ok (F : ColForm σ) (props : Bool) (c : Cur) (tn : Str
   have hN3 : Next c3 '\n' (F.text cs ++ ['}']) := skipWs_rest_head c3 '\n' _ hr3 (by decide)
   obtain ⟨c4, hs3, hr4, hp4⟩ := skipNl_one c3 (F.text cs ++ ['}']) hN3 hp3 (by
     intro d hd _
-    obtain ⟨k, x, r, he, hw, h1, h2, _⟩ := F.body_next cs []
+    obtain ⟨k, x, r, he, hw, h1, h2⟩ := F.body_next cs ['}'] (endOK_brace [])
     have : Next d x r := skipWs_rest_spaces d k x r (by rw [hd, he]) hw
     exact quiet_of_next d x r this h1 h2)
-  have hs4 : skipNl c4 = .ok () c4 := F.skipNl_stay_body c4 cs [] hr4
+  have hs4 : skipNl c4 = .ok () c4 := F.skipNl_stay_body c4 cs ['}'] (endOK_brace []) hr4
   obtain ⟨s0, ps, rfl⟩ : ∃ s0 ps, cs = s0 :: ps := by
     cases cs with
     | nil => exact absurd rfl hne
     | cons a as => exact ⟨a, as, rfl⟩
-  obtain ⟨c5, hel, hr5, hp5⟩ := F.tableElement_col props c4 s0 ps [] hr4 hp4 (hcs s0 (by simp))
+  obtain ⟨c5, hel, hr5, hp5⟩ := F.tableElement_col props c4 s0 ps ['}'] (endOK_brace []) hr4 hp4 (hcs s0 (by simp))
   have hel3 : tableElement props c3 = .ok (TblElem.column (F.bp s0)) c5 := by
     rw [tableElement_skip props c3 c4 hs3 hs4]; exact hel
-  have hfuel : ps.length < c3.rest.length + 1 := by
+  have hfuel : ps.length + 1 < c3.rest.length + 1 := by
     rw [hr3]
     have h1 := F.text_length ps
     have h2 := F.text_cons_length s0 ps
     simp only [List.length_cons, List.length_append]; omega
-  obtain ⟨c6, hm, hr6, hp6⟩ := F.many_body props ps [] (fun q hq => hcs q (by simp [hq])) (c3.rest.length + 1) c5 hfuel hr5 hp5
+  obtain ⟨c6, hm, hr6, hp6⟩ := F.many_body props ps ['}'] [] [] (endOK_brace []) (bodyEnd_brace props []) (fun q hq => hcs q (by simp [hq])) (c3.rest.length + 1) c5 hfuel hr5 hp5
   have hmany : manyF (tableElement props) c3 = .ok (((s0 :: ps).map F.bp).map TblElem.column) c6 := by
     unfold manyF fuelOf
     have hlen : c5.rest.length ≠ c3.rest.length := by
       have h2 := F.text_cons_length s0 ps
       rw [hr5, hr3]; simp only [List.length_cons, List.length_append]; omega
     rw [many]
-    simp only [hel3, hlen, decide_false, Bool.false_and, Bool.false_eq_true, ↓reduceIte, hm, List.map_cons]
+    simp only [hel3, hlen, decide_false, Bool.false_and, Bool.false_eq_true, ↓reduceIte, hm, List.map_cons, List.append_nil]
   have hN6 : Next c6 '}' [] := skipWs_rest_head c6 '}' _ hr6 (by decide)
   obtain ⟨q5, q6⟩ := quiet_of_next c6 '}' _ hN6 (by decide) (by decide)
   have hs6 : skipNl c6 = .ok () c6 := skipNl_stay c6 q5 q6
